@@ -6,6 +6,8 @@ import (
 	"time"
 
 	"github.com/idena-network/idena-go/blockchain/types"
+	"github.com/idena-network/idena-go/consensus"
+	"github.com/idena-network/idena-go/stats/collector"
 	dbm "github.com/tendermint/tm-db"
 	"pgregory.net/rapid"
 
@@ -182,5 +184,113 @@ func TestCrashAtEveryWrite(t *testing.T) {
 			evid.Count("scenario.AddBlock.with_txs")
 		}
 		_ = types.Final
+	})
+}
+
+// A crash at any storage write while switching to a fork: the node restarts
+// into a consistent chain (own branch, common ancestor or part of the fork),
+// resolves the fork again if it is still on its own branch, and ends on the
+// fork tip like a node that never crashed.
+func TestCrashDuringForkSwitch(t *testing.T) {
+	rapid.Check(t, func(t *rapid.T) {
+		h := sim.RunHistory(t, sim.Options{MinActors: 3, MaxActors: 7, Replicas: 1, MaxReplicas: 3, Steps: rapid.IntRange(3, 9).Draw(t, "prefix"), MaxTxPerStep: 5,
+			Params: func(p *sim.Params) { p.CeremonyIn = 100000 }})
+		w := h.W
+		base := w.Replicas[0]
+		own := w.CopyOf(t, base, "own", w.God)
+		forkSide := w.CopyOf(t, base, "fork", w.God)
+		ownLen := rapid.IntRange(0, 2).Draw(t, "ownLen")
+		for i := 0; i < ownLen; i++ {
+			w.Extend(t, own, nil, nil)
+		}
+		forkLen := ownLen + rapid.IntRange(1, 3).Draw(t, "forkExtra")
+		var bundles []types.BlockBundle
+		for i := 0; i < forkLen; i++ {
+			blk, cert := w.Extend(t, forkSide, nil, func(blk *types.Block) *types.BlockCert { return w.MakeCert(forkSide, blk, sim.CertValid) })
+			bundles = append(bundles, types.BlockBundle{Block: blk, Cert: cert})
+		}
+		preImage := sim.CopyDB(own.DB)
+		switchFork := func(n *sim.Replica) error {
+			resolver := consensus.NewForkResolver(nil, nil, n.Chain, collector.NewStatsCollector())
+			if err := resolver.VerifProcessBlocks(bundles); err != nil {
+				return err
+			}
+			_, err := resolver.ApplyFork()
+			return err
+		}
+		dry := crashdb.New(preImage)
+		n0, err := nodeOn(t, w, "dry", dry, own)
+		if err != nil {
+			t.Fatalf("start: %v", err)
+		}
+		dry.Arm(0)
+		if err := switchFork(n0); err != nil {
+			// (the fork weight rule may refuse an equally long fork: nothing to crash)
+			evid.Count("fork.refused")
+			return
+		}
+		W := dry.Writes()
+		writeLog := append([]string{}, dry.Log...)
+		evid.Count("scenario.ApplyFork")
+		evid.CountN("writes.total", W)
+		for k := 1; k <= W+1; k++ {
+			evid.Eval()
+			cdb := crashdb.New(preImage)
+			n, err := nodeOn(t, w, "crash", cdb, own)
+			if err != nil {
+				t.Fatalf("start: %v", err)
+			}
+			cdb.Arm(k)
+			crashed, other := runCrashing(func() {
+				if err := switchFork(n); err != nil {
+					t.Fatalf("fork switch on the crash node: %v", err)
+				}
+			})
+			if other != nil {
+				panic(other)
+			}
+			if crashed != (k <= W) {
+				t.Fatalf("crash point %d of %d: crashed=%v", k, W, crashed)
+			}
+			where := fmt.Sprintf("ApplyFork(own=+%d, fork=+%d), crash before write %d of %d", ownLen, forkLen, k, W)
+			r, err := nodeOn(t, w, "restarted", sim.CopyDB(cdb.Image()), own)
+			if err != nil {
+				t.Fatalf("start-up sequence fails after %s: %v\nwrites: %v", where, err, writeLog)
+			}
+			if r.Head().Root() != r.AppState.State.Root() || r.Head().IdentityRoot() != r.AppState.IdentityState.Root() {
+				t.Fatalf("after restart head roots differ from the loaded state (%s)", where)
+			}
+			// where is the node? on the fork (incl. the common ancestor) or still on its own branch
+			onFork := false
+			if c := forkSide.Chain.GetBlockHeaderByHeight(r.Head().Height()); c != nil && c.Hash() == r.Head().Hash() {
+				onFork = true
+			}
+			onOwn := false
+			if c := own.Chain.GetBlockHeaderByHeight(r.Head().Height()); c != nil && c.Hash() == r.Head().Hash() {
+				onOwn = true
+			}
+			if !onFork && !onOwn {
+				t.Fatalf("after restart the head %d is on neither branch (%s)", r.Head().Height(), where)
+			}
+			if !onFork {
+				// still on the own branch: the fork is offered again
+				if err := switchFork(r); err != nil {
+					t.Fatalf("restarted node cannot switch to the fork after %s: %v", where, err)
+				}
+			}
+			for x := r.Head().Height() + 1; x <= forkSide.Head().Height(); x++ {
+				if err := r.AddBlock(forkSide.Chain.GetBlockByHeight(x)); err != nil {
+					t.Fatalf("restarted node refuses fork block %d after %s: %v\nwrites: %v", x, where, err, writeLog)
+				}
+			}
+			if r.Head().Hash() != forkSide.Head().Hash() || r.AppState.State.Root() != forkSide.AppState.State.Root() || r.AppState.IdentityState.Root() != forkSide.AppState.IdentityState.Root() {
+				t.Fatalf("restarted node does not reach the fork tip state after %s", where)
+			}
+			if k > 1 && k <= W {
+				evid.NonTrivial(fmt.Sprintf("ApplyFork|own=%d|fork=%d|q%d|%s", ownLen, forkLen, (k*4)/(W+1), writeLog[k-1][:3]))
+				evid.Count("crash.inside_fork_switch")
+			}
+		}
+		evid.Sample("scenario", fmt.Sprintf("ApplyFork own=+%d fork=+%d: %d writes", ownLen, forkLen, W))
 	})
 }
